@@ -260,11 +260,14 @@ func (w *world) monitor(op Op, cls Class, err error, p *pre, before, after *snap
 			}
 		}
 		if q := before.sdep[p.target]; q.kind == 2 && op.Kind != "repay" {
+			// exact since fix 6c61e7a5b (loadSyncedDeposit rounds like SyncSupplyInterest): a withdrawal
+			// capped by the handler's synced deposit is thereby capped by GetSyncedDeposit's figure
 			for d := 0; d < nD; d++ {
-				if df := new(big.Int).Sub(q.amt[d], p.dep[d]); df.CmpAbs(big.NewInt(1)) > 0 {
+				if q.amt[d].Cmp(p.dep[d]) != 0 {
+					if op.Kind == "withdraw" && coins[d].Cmp(q.amt[d]) > 0 && q.amt[d].Cmp(p.dep[d]) < 0 {
+						return "withdraw-capped", "withdraw-exceeds-getsynceddeposit", fmt.Sprintf("user %d denom %s: GetSyncedDeposit %s, withdrawn %s", p.target, denoms[d], q.amt[d], p.dep[d])
+					}
 					return "sync-agrees-with-query", "sync-deposit-disagrees-with-getsynceddeposit", fmt.Sprintf("user %d denom %s: GetSyncedDeposit %s, synced in %s %s", p.target, denoms[d], q.amt[d], op.Kind, p.dep[d])
-				} else if df.Sign() != 0 && op.Kind == "withdraw" && coins[d].Cmp(q.amt[d]) > 0 && df.Sign() < 0 {
-					return "withdraw-capped", "withdraw-exceeds-getsynceddeposit-by-one", fmt.Sprintf("user %d denom %s: GetSyncedDeposit %s, withdrawn %s", p.target, denoms[d], q.amt[d], p.dep[d])
 				}
 			}
 		}
@@ -293,6 +296,10 @@ func (w *world) monitor(op Op, cls Class, err error, p *pre, before, after *snap
 			got := new(big.Int).Sub(after.bal[op.A][d], before.bal[op.A][d])
 			if got.Cmp(p.dep[d]) > 0 {
 				return "withdraw-capped", "withdraw-exceeds-synced-deposit", fmt.Sprintf("denom %s: received %s, synced deposit %s", denoms[d], got, p.dep[d])
+			}
+			// the property as the user observes it: never more than GetSyncedDeposit showed before the message
+			if q := before.sdep[op.A]; q.kind == 2 && got.Cmp(q.amt[d]) > 0 {
+				return "withdraw-capped", "withdraw-exceeds-getsynceddeposit", fmt.Sprintf("denom %s: received %s, GetSyncedDeposit %s", denoms[d], got, q.amt[d])
 			}
 			if m := expBal(op.A, d, moved); m != "" {
 				return "withdraw-capped", "inexact-delta", m
